@@ -242,7 +242,7 @@ fn observe(sim: &des::net::SimBuilder<()>) -> Expect {
 
 // ---- document generator (feature bits) -------------------------------------------------
 
-const NBITS: u32 = 15;
+const NBITS: u32 = 16;
 
 fn gen(bits: u32) -> Vec<Ty> {
     let f = |k: u32| bits & (1 << k) != 0;
@@ -303,14 +303,26 @@ fn gen(bits: u32) -> Vec<Ty> {
             top.subs.push(Sub { name: "z", size: None, ty: "Leaf".into(), ty_txt: "Leaf".into() });
             top.conns.push(Conn { a: acc("z/g"), b: acc("p[1]"), link: false });
         }
+        if f(15) {
+            // the child restates a connection it inherits (same pair, same link: one connection)
+            top.conns.push(Conn { a: acc("k/g"), b: acc("p[0]"), link: f(10) });
+        }
         types.push(top);
         main.subs.push(Sub { name: "t", size: None, ty: "Top".into(), ty_txt: "Top".into() });
     }
     if f(8) {
         main.conns.push(Conn { a: acc("a/g"), b: acc("m/up"), link: false });
     }
+    if f(8) && f(15) {
+        // the same pair stated twice; m/up is a pass-through gate that Mid may wire inwards (bit 4)
+        main.conns.push(Conn { a: acc("a/g"), b: acc("m/up"), link: false });
+    }
     if f(9) {
         main.conns.push(Conn { a: acc("c/g"), b: acc("m/dn"), link: f(10) });
+    }
+    if f(9) && f(15) {
+        // a group statement restated for one index
+        main.conns.push(Conn { a: acc("c[1]/g"), b: acc("m/dn[1]"), link: f(10) });
     }
     if f(0) && f(9) {
         main.conns.push(Conn { a: acc("c[0]/h[1]"), b: acc("a/h[0]"), link: false });
@@ -536,12 +548,12 @@ impl Property for C18 {
     }
     fn rule(&self, tier: Tier) -> String {
         format!(
-            "conformance: all 2^{NBITS} = 32768 documents of the feature-bit grammar (cluster gates, generic Mid with type argument, inherited argument type, several fields typed with the same parameter, submodule clusters incl. size one, a type inheriting gates / submodules / connections with and without own additions, nested/cluster/indexed connections with and without link, inherited cluster element type, cluster-to-cluster and indexed connections at the top level) built with nodes_from_ndl and compared with a reference elaborator (modules with registered software, gate clusters, connections incl. link metrics and queue size); \
+            "conformance: all 2^{NBITS} = 65536 documents of the feature-bit grammar (cluster gates, generic Mid with type argument, inherited argument type, several fields typed with the same parameter, submodule clusters incl. size one, a type inheriting gates / submodules / connections with and without own additions, nested/cluster/indexed connections with and without link, inherited cluster element type, cluster-to-cluster and indexed connections at the top level, the same gate pair stated twice: verbatim, as an indexed restatement of a group statement, and by a child type restating an inherited connection) built with nodes_from_ndl and compared with a reference elaborator (modules with registered software, gate clusters, connections incl. link metrics and queue size); \
              semantic mutations: {} single-point mutations (one per error cause of the statement) applied to {} generated documents, each must yield an error; \
              textual mutations: every scalar of {} base documents replaced by each of {} garbled/dangling tokens, outcome must be a network or an error, never a panic; \
              non-trivial = document that has at least one connection (conformance) or every mutated document (totality)",
             SEM.len(),
-            tier.pick("the 8192 documents without the inheritance bits of the", "all 32768"),
+            tier.pick("the 8192 documents without the inheritance bits of the", "all 65536"),
             tier.pick("4 hand-written + 64 generated".to_string(), "4 hand-written + all 8192 generated".to_string()),
             MUTS.len()
         )
